@@ -110,12 +110,13 @@ def c16_matlab_concat(f1: str, tail: int) -> bool:
 
     def fake_parse(text):
         captured.append(text)
-        raise _Captured()
+        return old_parse("")               # an implementation may parse file by file: let it go on
 
     old_open = _mw.__dict__.get("open")
     old_parse = parser.Module.parseString
     _mw.open = fake_open
     parser.Module.parseString = staticmethod(fake_parse)
+    w.generate_content = lambda *a, **k: None
     try:
         try:
             w.wrap(["one.i", "two.i"], "/nonexistent")
@@ -127,11 +128,77 @@ def c16_matlab_concat(f1: str, tail: int) -> bool:
             del _mw.open
         else:
             _mw.open = old_open
-    ok = len(captured) == 1 and ref_lex(captured[0]) == want
+    lexed = []
+    for c in captured:
+        lx = ref_lex(c)
+        lexed = None if (lx is None or lexed is None) else lexed + lx
+    ok = len(captured) >= 1 and lexed == want
     if not ok:
         with concrete():
             _fail(f1=f1, f2=f2, parsed=captured, want=want)
     reached()
+    return ok
+
+
+# ---------------------------------------------------------------- MATLAB: a list of files == one file holding their declarations
+SPLIT_DECLS = [
+    "template<T> class Box { Box(T t); T get() const; };",
+    "typedef Box<Item> BoxItem;",
+    "class Item { Item(); };",
+    "namespace geo { class P { P(); }; }",
+    "typedef geo::Wrap<Item> WrapItem;",
+    "namespace geo { template<T> class Wrap { Wrap(); }; double area(const geo::P& p); }",
+    "double free_fn(int a = 3);",
+]
+ORDERS3 = [[0, 1, 2, 3, 4, 5, 6], [2, 0, 3, 5, 1, 4, 6], [6, 5, 4, 3, 2, 1, 0], [1, 4, 0, 5, 2, 3, 6]]
+
+
+def matlab_files_for(texts):
+    import gtwrap.matlab_wrapper.wrapper as mw
+    contents = {"f%d.i" % i: t for i, t in enumerate(texts)}
+    w = pipe.new_matlab_wrapper()
+    old_open = mw.__dict__.get("open")
+    mw.open = lambda name, mode="r", *a, **k: _FakeFile(contents[name])
+    saved_gen = w.generate_content
+    w.generate_content = lambda *a, **k: None
+    try:
+        content = w.wrap(list(contents), "tb")
+    finally:
+        if old_open is None:
+            del mw.open
+        else:
+            mw.open = old_open
+    files = {}
+    pipe.flatten_content(content, "", files)
+    return files
+
+
+def c16_matlab_split(order: int, cut1: int, cut2: int, ending: int) -> bool:
+    """
+    Seven declarations (templates, typedefs of templates declared in another file, namespaces re-opened across
+    files) in 4 orders, split into 1-3 files at every pair of cut points, each file ending with / without a
+    newline or in a // comment: the toolbox equals the one generated from the single file.
+    pre: 0 <= order < len(ORDERS3) and 0 <= cut1 <= 7 and cut1 <= cut2 <= 7 and 0 <= ending <= 2
+    post: _
+    """
+    order, cut1, cut2, ending = pick(order, 0, len(ORDERS3)), pick(cut1, 0, 8), pick(cut2, 0, 8), pick(ending, 0, 3)
+    with concrete():
+        decls = [SPLIT_DECLS[i] for i in ORDERS3[order]]
+        end = ["\n", "", " // trailing"][ending]
+        parts = [decls[:cut1], decls[cut1:cut2], decls[cut2:]]
+        texts = ["\n".join(p) + end for p in parts if p]
+        outcome = []
+        for ts in (["\n".join(decls) + "\n"], texts):
+            try:
+                outcome.append(matlab_files_for(ts))
+            except Exception as ex:
+                outcome.append("raised %s: %s" % (type(ex).__name__, ex))
+        ok = outcome[0] == outcome[1]
+        if not ok:
+            diff = [k for k in outcome[0] if isinstance(outcome[1], dict) and outcome[1].get(k) != outcome[0][k]] if isinstance(outcome[0], dict) else outcome[0]
+            _fail(files=texts, single=outcome[0] if isinstance(outcome[0], str) else sorted(outcome[0]),
+                  split=outcome[1] if isinstance(outcome[1], str) else sorted(outcome[1]), differing=diff)
+    reached({"order": order, "cuts": [cut1, cut2], "ending": ending})
     return ok
 
 
@@ -218,11 +285,13 @@ def tpl():
 
 
 # ---------------------------------------------------------------- (b) pybind parts
-PARTS = ["part_a", "part_b"]
+PARTS = ["part_a", "multi", "part_b"]        # `multi`: a stem that ends in the letter of the `.i` suffix
 
 
 def check_parts(nparts, boost, order):
     names = PARTS[:nparts] if order == 0 else list(reversed(PARTS[:nparts]))
+    if order == 2:
+        names = PARTS[1:nparts + 1][:nparts] if nparts < 3 else [PARTS[1], PARTS[2], PARTS[0]]
     srcs = [os.path.join(DATA, "main.i")] + [os.path.join(DATA, n + ".i") for n in names]
     problems = []
     with patched_io() as rec:
@@ -269,10 +338,10 @@ def c16_pybind_parts(nparts: int, boost: int, order: int) -> bool:
     """
     Main output declares and invokes one initialiser per additional file, in order; each part's output defines
     exactly that initialiser and equals wrapping its text alone (same wrapper object used throughout).
-    pre: 0 <= nparts <= 2 and 0 <= boost <= 1 and 0 <= order <= 1
+    pre: 0 <= nparts <= 3 and 0 <= boost <= 1 and 0 <= order <= 2
     post: _
     """
-    nparts, boost, order = pick(nparts, 0, 3), pick(boost, 0, 2), pick(order, 0, 2)
+    nparts, boost, order = pick(nparts, 0, 4), pick(boost, 0, 2), pick(order, 0, 3)
     with concrete():
         ok = check_parts(nparts, boost, order)
     reached({"nparts": nparts, "boost": boost, "order": order})
@@ -281,7 +350,7 @@ def c16_pybind_parts(nparts: int, boost: int, order: int) -> bool:
 
 # ---------------------------------------------------------------- (c) scripts vs API
 TOPS = ["", "gt", "gt::sub", "::gt", "nomatch"]
-IGN = [None, [], ["gt::Main"], ["Glob", "gt::sub::Inner"]]
+IGN = [None, [], ["gt::Main"], ["Glob", "gt::sub::Inner"], ["gt::Pair2<int, double>"]]
 
 
 def run_script(script, argv):
@@ -357,11 +426,11 @@ def check_scripts(which, top, ign, boost, sub):
 def c16_scripts(which: int, top: int, ign: int, boost: int, sub: int) -> bool:
     """
     Each command-line script writes exactly what the library API writes for the corresponding options.
-    pre: 0 <= which <= 1 and 0 <= top < 5 and 0 <= ign < 4 and 0 <= boost <= 1 and 0 <= sub <= 1
+    pre: 0 <= which <= 1 and 0 <= top < 5 and 0 <= ign < 5 and 0 <= boost <= 1 and 0 <= sub <= 1
     pre: not (kf_open('C16-ignore-absent') and ign == 0)
     post: _
     """
-    which, top, ign, boost, sub = pick(which, 0, 2), pick(top, 0, 5), pick(ign, 0, 4), pick(boost, 0, 2), pick(sub, 0, 2)
+    which, top, ign, boost, sub = pick(which, 0, 2), pick(top, 0, 5), pick(ign, 0, 5), pick(boost, 0, 2), pick(sub, 0, 2)
     with concrete():
         ok = check_scripts(which, top, ign, boost, sub)
     reached({"script": which, "top": TOPS[top], "ignore": IGN[ign], "boost": boost, "sub": sub} if (not ok or (top == 2 and ign == 2)) else None)
@@ -405,8 +474,10 @@ def conds(tier):
     return [
         xh.Cond(M, "c16_matlab_concat", t(300, 1800), examples=["f1='a', tail=0", "f1='a;//a', tail=1", "f1='a;\\n', tail=0", "f1='/*a*/', tail=2"],
                 bounds="file1: all strings of length <= %d over {/,*,newline,space,a,;}; file2: 3 fixed continuations" % (3 if q else 4)),
-        xh.Cond(M, "c16_pybind_parts", t(200, 900), kind="shape-bounded", examples=["nparts=2, boost=1, order=0"], bounds="0-2 additional files x serialization x 2 orders"),
+        xh.Cond(M, "c16_matlab_split", t(420, 1800), kind="shape-bounded", path_timeout=60, examples=["order=1, cut1=2, cut2=5, ending=2", "order=3, cut1=1, cut2=1, ending=1"],
+                bounds="4 declaration orders x all pairs of cut points among 7 declarations x 3 file endings"),
+        xh.Cond(M, "c16_pybind_parts", t(200, 900), kind="shape-bounded", examples=["nparts=2, boost=1, order=0"], bounds="0-3 additional files x serialization x 3 orders"),
         xh.Cond(M, "c16_scripts", t(420, 1800), kind="shape-bounded", path_timeout=60, examples=["which=0, top=1, ign=2, boost=0, sub=0", "which=1, top=0, ign=0, boost=0, sub=1", "which=0, top=0, ign=0, boost=1, sub=1"],
-                bounds="2 scripts x 5 --top_module_namespaces values x 4 --ignore forms (absent, empty, one, two) x serialization x (submodule | second file)"),
+                bounds="2 scripts x 5 --top_module_namespaces values x 5 --ignore forms (absent, empty, one, two, a template instantiation whose name contains a comma) x serialization x (submodule | second file)"),
         xh.Cond(M, "c16_top_split", t(120, 600), examples=["v=''", "v='a::b'", "v='::a'"], bounds="all option values of length <= 6 over {a,b,:}"),
     ]
